@@ -246,8 +246,7 @@ def ones_like(a, **k):
 
 def arange(*a, **k):
     if not anysym(*a):
-        if Ctx.cur is None:
-            return _np.arange(*a, **k)
+        return _np.arange(*a, **k)
     if len(a) == 1:
         lo, hi = 0, a[0]
     elif len(a) == 2:
@@ -331,6 +330,13 @@ def concatenate(arrs, axis=0):
     if isinstance(arrs, (SymIterable,)) and has_symbolic_len(arrs):
         from . import seqcat
         return seqcat.concat_symbolic(arrs)
+    if isinstance(arrs, SArr):
+        # a single n-d array is treated by numpy as the sequence of its (n-1)-d rows
+        if arrs.ndim - 1 <= (axis if axis >= 0 else axis + arrs.ndim - 1) or arrs.ndim < 2:
+            if arrs.ndim < 2:
+                raise ValueError("zero-dimensional arrays cannot be concatenated")
+            raise _np.exceptions.AxisError(axis, arrs.ndim - 1)
+        raise Unsupported("np.concatenate of the rows of a symbolic array")
     arrs = [a.data if (hasattr(a, "data") and isinstance(a.data, SArr)) else a for a in list(arrs)]
     arrs = [_arr(a) for a in arrs]
     if not arrs:
@@ -819,6 +825,20 @@ def triu(a):
     if a.ndim == 3:
         return SArr(a.shape, lambda b, i, j: z3.If(i <= j, old(b, i, j), zero), a.kind)
     raise Unsupported("triu rank")
+
+
+def tril(a):
+    if not _sym(a):
+        return _np.tril(a)
+    a = _arr(a)
+    old = a._elem
+    zero = z3.RealVal(0) if a.kind == "f" else z3.IntVal(0)
+    Ctx.cur.trust("numpy:tril (zero above the diagonal of the last two axes)")
+    if a.ndim == 2:
+        return SArr(a.shape, lambda i, j: z3.If(i >= j, old(i, j), zero), a.kind)
+    if a.ndim == 3:
+        return SArr(a.shape, lambda b, i, j: z3.If(i >= j, old(b, i, j), zero), a.kind)
+    raise Unsupported("tril rank")
 
 
 def diag(a, k=0):
